@@ -31,7 +31,7 @@ class Via:
 class Contract:
     def __init__(self, file, qual, *, props, params=None, free=None, via=None, requires=(), post=None, loops=None,
                  cover=(), native=None, name=None, clause_props=None, generator=False, notes=(), stubs=None,
-                 callee_contracts=None, bounded_ok=False, ghosts=None, replayer=None, consts=None, methods=None, scenarios=None, opaque=None, decl_disciplines=None, then=None, frame=True, max_paths=None, trusted=False):
+                 callee_contracts=None, bounded_ok=False, ghosts=None, replayer=None, consts=None, methods=None, scenarios=None, opaque=None, decl_disciplines=None, then=None, prefer_shadow=False, frame=True, max_paths=None, trusted=False):
         self.file = file
         self.qual = qual
         self.name = name or f"{file}:{qual}"
@@ -57,6 +57,7 @@ class Contract:
         self.replayer = replayer
         self.consts = dict(consts or {})
         self.scenarios = scenarios
+        self.prefer_shadow = prefer_shadow
         self.then = dict(then or {})         # call the returned closure with these further parameters
         self.decl_disciplines = dict(decl_disciplines or {})
         self.opaque = dict(opaque or {})     # name -> (getter(module) -> callable, [exception classes])
